@@ -1,22 +1,42 @@
 #!/bin/bash
 # tools/try_mutant.sh <seeded-dir-name> <tier> <Cxx> [<Cxx> ...]
-# Applies /verif/seeded/<name>/patch.diff to /repo's working tree, runs the given checks, records the
-# outcome in the seeded meta.json, and undoes the change straight afterwards.
+#
+# Official mode (default): applies /verif/seeded/<name>/patch.diff to /repo's working tree, runs the given
+# checks, records the outcome in the seeded meta.json, and undoes the change straight afterwards.
+#
+# Scratch mode (SLOT=<k> in the environment): the patch is applied to a scratch worktree /tmp/mt/slot<k> of
+# /repo's HEAD instead and the checks judge that worktree (DLTVERIF_REPO), writing evidence/replays below
+# /tmp/mt/out<k>; /repo is not touched, several slots can run in parallel.  Results are recorded under the key
+# "<Cxx> <tier> (scratch)"; the table in DESIGN.md uses official results only.
 set -u
 NAME="$1"; TIER="$2"; shift 2
 DIR="/verif/seeded/$NAME"
 cd /verif || exit 2
-[ -z "$(git -C /repo status --porcelain -- src)" ] || { echo "/repo is not clean"; exit 2; }
-git -C /repo apply "$DIR/patch.diff" || { echo "patch does not apply"; exit 2; }
-trap 'git -C /repo checkout -- . ' EXIT
+SUFFIX=""
+if [ -n "${SLOT:-}" ]; then
+  WT="/tmp/mt/slot$SLOT"; mkdir -p /tmp/mt
+  [ -d "$WT" ] || git -C /repo worktree add -q --detach "$WT" HEAD || exit 2
+  git -C "$WT" checkout -q --detach "$(git -C /repo rev-parse HEAD)" 2>/dev/null
+  git -C "$WT" checkout -q -- . ; git -C "$WT" clean -qfd -e target
+  git -C "$WT" apply "$DIR/patch.diff" || { echo "patch does not apply"; exit 2; }
+  export DLTVERIF_REPO="$WT" DLTVERIF_OUT="/tmp/mt/out$SLOT"; mkdir -p "$DLTVERIF_OUT"
+  trap 'git -C "$WT" checkout -q -- .' EXIT
+  SUFFIX=" (scratch)"
+else
+  [ -z "$(git -C /repo status --porcelain -- src)" ] || { echo "/repo is not clean"; exit 2; }
+  git -C /repo apply "$DIR/patch.diff" || { echo "patch does not apply"; exit 2; }
+  trap 'git -C /repo checkout -- . ' EXIT
+  # evidence of a run against a changed tree is not evidence about /repo: keep it out of /verif/evidence
+  export DLTVERIF_OUT="/verif/work/mutant-out"; mkdir -p "$DLTVERIF_OUT"
+fi
 for P in "$@"; do
   START=$(date +%s)
   OUT=$(./check "$P" "$TIER" 2>/dev/null); RC=$?
   SECS=$(( $(date +%s) - START ))
   LINE=$(echo "$OUT" | grep -a -E "^(VIOLATION|OK|INCONCLUSIVE)" | head -1)
   MSG=$(echo "$OUT" | grep -a -A1 "^VIOLATION" | tail -1 | cut -c1-300)
-  echo "$NAME $P $TIER rc=$RC ${SECS}s :: $LINE :: $MSG"
-  python3 - "$DIR/meta.json" "$P" "$TIER" "$RC" "$SECS" "$MSG" <<'PY'
+  echo "$NAME $P $TIER$SUFFIX rc=$RC ${SECS}s :: $LINE :: $MSG"
+  python3 - "$DIR/meta.json" "$P" "$TIER$SUFFIX" "$RC" "$SECS" "$MSG" <<'PY'
 import json, sys
 p, prop, tier, rc, secs, msg = sys.argv[1:7]
 m = json.load(open(p))
